@@ -28,15 +28,33 @@
 //   8   span<const string_view>   {"x", "v<v>"}
 //   9   span<const bool>          {true, false, ...} length v (v <= 6; else as family 2)
 //   10  mixed: family (v mod 9) for every v   (one key sees values of different types)
-//   The encodings are pairwise disjoint, so a delivered OwnedAttributeValue decodes to at most one
-//   abstract value, whatever family produced it; anything else decodes to 0 ("invented").
+//   11  "one value, several representations": v = 1 -> double zero, +0.0 or -0.0 drawn per
+//       occurrence (equal as values: -0.0 == +0.0, so the SAME series); v = 2 ->
+//       span<const double>{+-0.0, 2.0} (sign per occurrence); v >= 3 -> double (v - 1).0
+//   12  "easily conflated, but different values" (typed key-to-value maps: a bool is not an int,
+//       a number is not its spelling, an empty string is not a missing key): 1 -> bool true,
+//       2 -> int32 1, 3 -> "1", 4 -> "true", 5 -> "" (empty string), 6 -> bool false, 7 -> int32 0,
+//       8 -> "0", 9 -> "false"; v >= 10: as family 2.  Must all be DIFFERENT series.
+//   Representation choices that must not matter are drawn per occurrence from the execution's
+//   seed: family 0 hands the string over as string_view or as const char *, families 11 the sign
+//   of zero; every array / string lives in a fresh buffer on every call.
+//   Deliberately never generated (the statement does not decide them): int32 n vs int64 n vs
+//   uint32 n vs double n.0 for the same key in one history (same number, different C++ type), NaN.
+//   The encodings of families 0-9 are pairwise disjoint, so a delivered OwnedAttributeValue decodes
+//   to at most one abstract value whatever family produced it (family 10); families 11 and 12 have
+//   their own decoders; anything else decodes to 0 ("invented").
 //
 //   Every buffer handed to the SDK is overwritten with '#' / garbage and freed right after the
 //   call returns (the SDK must have copied what it keeps).
 //
-//   amounts: an abstract amount n is recorded as n (long instruments) or n * scale (double
-//   instruments, scale in {1, 0.25, 1024}; all partial sums are exactly representable); a delivered
-//   value that is not an integral multiple of the scale is logged as -2^30 (never acceptable).
+//   amounts: an abstract amount n is recorded as n * M.  double instruments: M in {1, 0.25, 1024}
+//   (all partial sums exactly representable).  long instruments (uint64 counter / int64 up-down
+//   counter): M = 1, or a HUGE ODD multiplier -- 2^53 + 1 when the history's total |amount| T
+//   allows (T * M < 2^62), else the largest odd M with T * M < 2^62 -- so that every sum is exact in
+//   int64 but almost never representable as a double (n * (2^53 + 1) for every n >= 1), with mixed
+//   signs and totals returning to small values for up-down counters; or M = 3.  The projection
+//   reduces a delivered value V to V / M when M divides V exactly; anything else (a rounded sum) is
+//   logged as -2^30 (never acceptable).  The expected small integers come from the monitor.
 #pragma once
 
 #include <cmath>
@@ -110,8 +128,12 @@ inline int family_of(int vf, int v)
     f = 2;
   if (f == 9 && v > 6)
     f = 2;
+  if (f == 12 && v > 9)
+    f = 2;
   return f;
 }
+
+static const int kNumValueFamilies = 13;
 
 // Owns every buffer of one Add() call; scribbles and frees them afterwards.
 struct CallerAttrs
@@ -123,6 +145,8 @@ struct CallerAttrs
   };
   std::vector<Buf> bufs;
   std::vector<std::pair<nostd::string_view, AttributeValue>> kvs;
+  Rng *rep = nullptr;  // draws the representation choices that must not matter (may be null)
+  bool coin() { return rep && (rep->next() & 1); }
 
   char *alloc(size_t n)
   {
@@ -145,7 +169,10 @@ struct CallerAttrs
     switch (family_of(vf, v))
     {
       case 0:
-        val = sv("v" + std::to_string(v), false);
+        if (coin())
+          val = (const char *)sv("v" + std::to_string(v), true).data();
+        else
+          val = sv("v" + std::to_string(v), false);
         break;
       case 1:
         val = (const char *)sv("s" + std::to_string(v), true).data();
@@ -184,6 +211,31 @@ struct CallerAttrs
         for (int i = 0; i < v; ++i)
           a[i] = (i % 2 == 0);
         val = nostd::span<const bool>(a, (size_t)v);
+        break;
+      }
+      case 11: {
+        double zero = coin() ? -0.0 : 0.0;
+        if (v == 1)
+          val = zero;
+        else if (v == 2)
+        {
+          double *a = (double *)alloc(2 * sizeof(double));
+          a[0]      = zero;
+          a[1]      = 2.0;
+          val       = nostd::span<const double>(a, 2);
+        }
+        else
+          val = (double)(v - 1);
+        break;
+      }
+      case 12: {
+        static const char *spell[] = {"", "", "", "1", "true", "", "", "", "0", "false"};
+        if (v == 1 || v == 6)
+          val = (bool)(v == 1);
+        else if (v == 2 || v == 7)
+          val = (int32_t)(v == 2 ? 1 : 0);
+        else
+          val = sv(spell[v], false);
         break;
       }
     }
@@ -239,8 +291,40 @@ inline int parse_tagged(const std::string &s, char tag)
   return s == std::string(1, tag) + std::to_string(n) ? n : 0;
 }
 
-// Decode a delivered (owned) value to its abstract id; 0 when it is not in the table.
-inline int value_id(const OwnedAttributeValue &ov)
+inline int value_id_generic(const OwnedAttributeValue &ov);
+
+// Decode a delivered (owned) value to its abstract id under value family vf; 0 when it is not in
+// the table.
+inline int value_id(const OwnedAttributeValue &ov, int vf)
+{
+  if (vf == 11)
+  {
+    if (auto p = nostd::get_if<double>(&ov))
+    {
+      if (*p == 0.0)
+        return 1;
+      return *p >= 2 && *p < 1e8 && *p == std::floor(*p) ? (int)*p + 1 : 0;
+    }
+    if (auto p = nostd::get_if<std::vector<double>>(&ov))
+      return p->size() == 2 && (*p)[0] == 0.0 && (*p)[1] == 2.0 ? 2 : 0;
+    return 0;
+  }
+  if (vf == 12)
+  {
+    if (auto p = nostd::get_if<bool>(&ov))
+      return *p ? 1 : 6;
+    if (auto p = nostd::get_if<int32_t>(&ov))
+      return *p == 1 ? 2 : (*p == 0 ? 7 : 0);
+    if (auto p = nostd::get_if<std::string>(&ov))
+      return *p == "1" ? 3 : *p == "true" ? 4 : *p == "" ? 5 : *p == "0" ? 8 : *p == "false" ? 9 : 0;
+    if (auto p = nostd::get_if<int64_t>(&ov))
+      return *p >= 1010 && *p < 100000000 ? (int)(*p - 1000) : 0;
+    return 0;
+  }
+  return value_id_generic(ov);
+}
+
+inline int value_id_generic(const OwnedAttributeValue &ov)
 {
   if (auto p = nostd::get_if<std::string>(&ov))
   {
@@ -279,7 +363,7 @@ inline int value_id(const OwnedAttributeValue &ov)
 // Abstract a delivered attribute map: [[k, v], ...] in the map's own order; *ovf is set when the
 // map is exactly {otel.metrics.overflow = true}.  Unknown keys / values become 0.
 template <class Map>
-inline json abstract_attrs(const Map &m, int kt, int max_k, bool *ovf)
+inline json abstract_attrs(const Map &m, int kt, int vf, int max_k, bool *ovf)
 {
   *ovf = false;
   if (m.size() == 1)
@@ -297,7 +381,7 @@ inline json abstract_attrs(const Map &m, int kt, int max_k, bool *ovf)
   }
   json a = json::array();
   for (auto &kv : m)
-    a.push_back(json::array({key_id(kt, kv.first, max_k), value_id(kv.second)}));
+    a.push_back(json::array({key_id(kt, kv.first, max_k), value_id(kv.second, vf)}));
   return a;
 }
 
